@@ -152,7 +152,7 @@ PROPS = {
     "C06": {
         "n_quick": 6000, "n_thorough": 300000, "exhaustive_in_thorough": True,
         "technique": "translator (go/ast -> Coq lexer table, re-proved equal to the model's table on every run) + Coq proof that lexer+parser accept exactly the derivations of the grammar (forward simulation of the lexer on derivations, inversion of parser runs over the chain characterisation of lexer runs) + exhaustive/random correspondence",
-        "level_text": "proof + translation: C06_exact (parse s = Some r iff r is a derivable AST and s spells a derivation of it with some spacing: soundness and completeness for all byte strings), C06_canonical (the rendering is that derivation with single blanks, parses to the same AST, renders to itself), C06_total, C06_lexer_preserves_text, C06_lexer_runs_are_chains; C06_source_table (the rule table regenerated from parser.go equals the table the model interprets) and C06_classes (README <char>/<any> = lexer classes) are re-checked by the kernel on every run; tied to the code by all strings up to length 4 (thorough: 5) over the 18-byte token alphabet, every single byte in the five lexer contexts, and random derivations with random spacing and 1-2 random edits, also judged by an independent byte-level BNF recogniser",
+        "level_text": "proof + translation: C06_exact (parse s = Some r iff r is a derivable AST and s spells a derivation of it with some spacing: soundness and completeness for all byte strings), C06_canonical (the rendering is that derivation with single blanks, parses to the same AST, renders to itself), C06_total, C06_lexer_preserves_text, C06_lexer_runs_are_chains; C06_source_table (the rule table regenerated from parser.go equals the table the model interprets) and C06_classes (README <char>/<any> = lexer classes) are re-checked by the kernel on every run; tied to the code by all strings up to length 4 (thorough: 5) over the 18-byte token alphabet, every single byte in the five lexer contexts, and random derivations with random spacing and 1-2 random edits, also judged by the byte-level BNF recogniser Grammar.bnf_parse, itself proved equal to the model on every byte string (C06_parse_is_bnf, C06_bnf_exact)",
         "level_note": "trusts Coq kernel, extraction, glue, the translator (harness/xlate.go, which cross-checks each normalised class against Go's regexp on all ASCII bytes); participle's engine is modelled (ordered alternatives, greedy repetition, literal tokens by text, no elision), its 1,000,000-iteration cap is not",
         "rule": "all strings of length <= 4 (thorough <= 5) over / ? { } : , space a * . \\ | ( [ tab $ ~; 2560 single-byte-in-context strings; random grammar derivations (1-4 segments, idents/regexes over the full documented classes, 0-2 blanks after ':' and ','), 40% verbatim, 40% with 1-2 random insert/delete/replace edits over a 31-byte alphabet incl. NUL, 0xff, newline; 20% random bytes. Non-trivial: accepted strings of length >= 4; distinct by input.",
         "what": "accept/reject (never panic), AST, Route.String(), re-parse of the rendering vs model; spec: accepted iff the byte-level BNF recogniser accepts, with its structure, and the canonical form re-parses to the same structure and renders to itself.",
